@@ -226,7 +226,10 @@ where
     /// Fails if active blob is set or there is no closed blobs
     /// [`restore_active_blob_in_background()`]: struct.Storage.html#method.restore_active_blob_async
     pub async fn try_restore_active_blob(&self) -> Result<()> {
-        self.inner.restore_active_blob().await
+        self.inner.restore_active_blob().await?;
+        // The restored blob may carry un-synced bytes (a deletion marker appended while it was closed)
+        self.observer.try_fsync_data().await;
+        Ok(())
     }
 
     /// Sets last blob from closed blobs as active if there is no active blobs
@@ -234,7 +237,8 @@ where
     /// want be sure about operation's result, use [`try_restore_active_blob()`]
     /// [`try_restore_active_blob()`]: struct.Storage.html#method.try_restore_active_blob
     pub async fn restore_active_blob_in_background(&self) {
-        self.observer.restore_active_blob().await
+        self.observer.restore_active_blob().await;
+        self.observer.try_fsync_data().await
     }
 
     /// Writes `data` to active blob asyncronously. If active blob reaches it limit, creates new
